@@ -102,9 +102,14 @@ def check_compiled(ctx, label, src, scope, work, thorough, nt, start_year=2000, 
     ctx.count("zones_with_truncation_note_excluded", len(trunc))
     emitted = sorted(tz["zones_map"])
     # ---- path A ----
-    exe = compilelib.build_with_generated("C03", "sweep_%s_%s" % (label, scope), "sweep.cpp",
-                                          x_out=r["outdir"] if scope == "extended" else None, x_ns=ns,
-                                          b_out=r["outdir"] if scope == "basic" else None, b_ns=ns)
+    try:
+        exe = compilelib.build_with_generated("C03", "sweep_%s_%s" % (label, scope), "sweep.cpp",
+                                              x_out=r["outdir"] if scope == "extended" else None, x_ns=ns,
+                                              b_out=r["outdir"] if scope == "basic" else None, b_ns=ns)
+    except compilelib.GeneratedDoesNotCompile as e:
+        ctx.violation("generated-not-compilable:" + tag, {"corpus": label, "scope": scope},
+                      "%s: tzcompiler.py accepted the source but the C++ tables it wrote do not compile: %s" % (tag, str(e)[:700]))
+        return
     db = "x" if scope == "extended" else "b"
     listed = sweeplib.list_zones(exe, db)
     if sorted(listed) != emitted:
@@ -264,8 +269,13 @@ def run(ctx):
             continue
         tzj = compilelib.load_tzdb_json(r["outdir"])
         trunc = c03lib.truncated_zones(tzj)
-        exe = compilelib.build_with_generated("C03", "sweep_genbatch_" + scope, "sweep.cpp", x_out=r["outdir"] if scope == "extended" else None,
-                                              x_ns=ns, b_out=r["outdir"] if scope == "basic" else None, b_ns=ns)
+        try:
+            exe = compilelib.build_with_generated("C03", "sweep_genbatch_" + scope, "sweep.cpp", x_out=r["outdir"] if scope == "extended" else None,
+                                                  x_ns=ns, b_out=r["outdir"] if scope == "basic" else None, b_ns=ns)
+        except compilelib.GeneratedDoesNotCompile as e:
+            ctx.violation("gen-batch-not-compilable:" + scope, {"log": str(e)[:1500]},
+                          "the C++ tables generated from the batch of generated sources (%s) do not compile: %s" % (scope, str(e)[:600]))
+            continue
         db = "x" if scope == "extended" else "b"
         listed = sweeplib.list_zones(exe, db)
         jobs = [dict(exe=exe, db=db, zi=zi, zone=z, odir=odir, t0=tzoracle.t_of(2000), t1=tzoracle.t_of(2050), stride=300, radius=120,
